@@ -35,11 +35,11 @@ from rules.semantic import enclosing_tests as _enclosing_tests
 from rules.common import local_single_defs as _lsd, substitute_locals as _subst
 
 CAP_PROVIDERS = {
-    "kFlowDecompCycles": ("max_edge_repetition_dict", r"^\{\(u, v\): data\[self\.flow_attr\] if self\.flow_attr in data else self\.w_max for u, v, data in self\.G\.edges\(data=True\)\}$",
+    "kFlowDecompCycles": ("max_edge_repetition_dict", "{(u, v): data[self.flow_attr] if self.flow_attr in data else self.w_max for u, v, data in self.G.edges(data=True)}",
                           "the edge's own flow (x*w <= f, w >= 1); w_max for attribute-less helper edges"),
-    "kLeastAbsErrorsCycles": ("max_edge_repetition_dict", r"^self\.G\.compute_edge_max_reachable_value\(flow_attr=self\.flow_attr\)$", "largest weight reachable from / reaching the edge"),
-    "kMinPathErrorCycles": ("max_edge_repetition_dict", r"^self\.G\.compute_edge_max_reachable_value\(flow_attr=self\.flow_attr\)$", "largest weight reachable from / reaching the edge"),
-    "kPathCoverCycles": ("max_edge_repetition", r"^self\.G\.number_of_edges\(\) \* self\.G\.number_of_nodes\(\)$", "|E|*|V| bounds the length of a shortest covering walk"),
+    "kLeastAbsErrorsCycles": ("max_edge_repetition_dict", "self.G.compute_edge_max_reachable_value(flow_attr=self.flow_attr)", "largest weight reachable from / reaching the edge"),
+    "kMinPathErrorCycles": ("max_edge_repetition_dict", "self.G.compute_edge_max_reachable_value(flow_attr=self.flow_attr)", "largest weight reachable from / reaching the edge"),
+    "kPathCoverCycles": ("max_edge_repetition", "self.G.number_of_edges() * self.G.number_of_nodes()", "|E|*|V| bounds the length of a shortest covering walk"),
 }
 
 
@@ -73,15 +73,17 @@ def repetition_caps(prog, rep, RID):
         if v is None:
             rep.violation(RID, key, f"`{kw}` is not passed to the walk base class: every edge is capped at the default 1 repetition", g.loc(sup[0]))
             continue
-        defs = {}
-        for st in _wnn(g.node):
-            if isinstance(st, _ast.Assign) and len(st.targets) == 1 and dotted(st.targets[0]) and dotted(st.targets[0]).startswith("self."):
-                defs.setdefault(dotted(st.targets[0]), st.value)
-        txt = norm(v)
-        if txt in defs:
-            txt = norm(defs[txt])
-        import re as _re
-        if _re.match(pat, txt):
+        from rules.common import canonical_value, canonical_text
+        txt = canonical_value(g.node, v)
+        want = canonical_text(pat)
+        if isinstance(v, _ast.Call) or True:
+            from sa.poly import to_poly as _tp
+            same_poly = False
+            try:
+                same_poly = repr(_tp(_ast.parse(txt, mode="eval").body)) == repr(_tp(_ast.parse(want, mode="eval").body))
+            except SyntaxError:
+                pass
+        if txt == want or same_poly:
             rep.ok(RID, key, f"{kw} = {txt[:80]} ({why})", g.loc(sup[0]), sample={"class": cname, "cap": txt[:120]})
         else:
             rep.violation(RID, key, f"{kw} = `{txt[:100]}` is not the tabled provider ({why}): walks that must repeat an edge more often are cut off", g.loc(sup[0]))
